@@ -38,10 +38,10 @@ def gen(rng, tier):
             yield G.case_ser("--", big, pos, "body", t)
             yield G.case_ser("--", big, pos, "body", t, cmd="rt")
         # decode a valid encoding directly (the encoder may refuse to produce it)
-        b, _ = G.marshal(('v', t), big, pos)
-        yield G.case_de_v("--", big, pos, 0, b)
-        b, _ = G.marshal(('r', [t]), big, pos)
-        if len(G.sigstr(G.vsig(t))) <= 255:
+        if len(G.sigstr(G.vsig(t))) <= 255:       # a longer signature has no encoding as a variant / header signature
+            b, _ = G.marshal(('v', t), big, pos)
+            yield G.case_de_v("--", big, pos, 0, b)
+            b, _ = G.marshal(('r', [t]), big, pos)
             yield G.case_de_s("--", big, pos, 0, G.sigstr(G.vsig(t)), b)
 
 
